@@ -50,6 +50,8 @@ def generate(seed, index, tier):
     rng = scenarios.derive_rng(seed, ID, index)
     if index % 8 == 7:
         return _gen_sqlfile(rng)
+    if index % 8 == 3:
+        return _gen_lone_delete(rng)
     simple = rng.random() < 0.6
     for attempt in range(30):
         if simple:
@@ -108,6 +110,32 @@ def generate(seed, index, tier):
         scn['fault'] = {'alias': rng.choice(['default', 'other']),
                         'kind': 'sql_error', 'k': rng.randrange(0, 5)}
     return scn
+
+
+def _gen_lone_delete(rng):
+    """The evolution deletes every model the app has on one side of the
+    split (and changes something on the other side): evolving the side that
+    loses its models must drop their tables and signature entries there."""
+    intf = lambda n: {'name': n, 'kind': 'Integer', 'attrs': {'null': True}}
+    names = ['Item', 'Item2', 'Zed'][:rng.choice([2, 3])]
+    models = [{'name': n, 'fields': [intf('a')], 'meta': {}} for n in names]
+    lone_side = rng.choice(['default', 'other'])
+    rest_side = 'other' if lone_side == 'default' else 'default'
+    lone = rng.choice(names)
+    side = {n: (lone_side if n == lone else rest_side) for n in names}
+    keep = [n for n in names if n != lone]
+    muts = [{'op': 'DeleteModel', 'model': lone},
+            {'op': 'AddField', 'model': keep[0], 'field': intf('b')}]
+    if rng.random() < 0.5:
+        muts.reverse()
+    project = {'apps': {'va': {'v0': models, 'steps': [
+        {'evos': [{'label': 'e1', 'mutations': muts}]}]}},
+        'order': ['va'], 'databases': ['default', 'other'],
+        'router': {'va.%s' % k.lower(): v for k, v in side.items()}}
+    rows = {'va_%s' % n.lower(): [{'id': 1, 'a': 1}] for n in names}
+    return {'project': project, 'rows': rows, 'simple': True, 'side': side,
+            'order': rng.choice([['default', 'other'], ['other', 'default']]),
+            'family': 'lone_delete'}
 
 
 def _gen_sqlfile(rng):
@@ -273,6 +301,14 @@ def execute(scn):
             if common.rejected_before_sql(r):
                 stats['rejected_before_sql'] = 1
                 res['runs'] = ws.nruns
+                if scn.get('family') == 'lone_delete':
+                    # valid by construction: a refusal is the routing gone
+                    # wrong, not an invalid program
+                    viols.append(violation(
+                        'C16.run_failed_on_foreign_mutation', alias=alias,
+                        status=r.status, family='lone_delete',
+                        msg=((r.exit or {}).get('msg') or
+                             r.stderr())[-300:], **detail))
                 return res
             if r.status != 'ok':
                 viols.append(violation(
@@ -307,6 +343,18 @@ def execute(scn):
                 viols.append(violation('C16.sig_contains_foreign_model',
                                        alias=alias, models=foreign,
                                        **detail))
+            # what the evolution deletes on this side is really gone here
+            left = sorted(t for t in t0[alias] - t1[alias]
+                          if t in snap_a['tables'])
+            if left:
+                viols.append(violation('C16.deleted_table_left', alias=alias,
+                                       tables=left, **detail))
+            v1names = {m['name'] for m in sts[1]['apps']['va']['models']}
+            stale = sorted(mn for mn in (sig.get('models') or {})
+                           if mn not in v1names)
+            if stale:
+                viols.append(violation('C16.sig_keeps_deleted_model',
+                                       alias=alias, models=stale, **detail))
             prev[alias] = snap_a
             prev[other] = snap_o
         res['runs'] = ws.nruns
